@@ -31,6 +31,8 @@ func init() {
 			"Every case is built >= 6 times (8 in thorough) through client.New(...).CreateHttpRequest with different SetPathParam/SetQueryParam call orders (Go map order varies per build); " +
 			"a third of the cases make all their builds on ONE Runtime on which 0-3 other operations (own patterns with static queries, values, caller queries, scheme lists) were built first, a third of those on a Runtime created without schemes; " +
 			"entry points client.New, client.NewWithClient and a base path assigned to Runtime.BasePath; in a quarter of the cases one path value and/or one query entry is set by the authentication writer (ClientOperation.AuthInfo or Runtime.DefaultAuthentication) instead of the params writer; " +
+			"a third of the shared-Runtime cases build the other operations while Runtime.BasePath and Runtime.Host hold other values (the case's own are assigned to the fields afterwards); " +
+			"1% of the values and a few static words are 63..4096 bytes long with reserved bytes at the ends and at the 64-byte boundaries; a third of the static queries leave '/' ':' '@' ',' unencoded and a quarter of their values look like paths or URLs ('https://h/cb' '/srv/data/' 'a/../b' 'src/./gen' '//'); " +
 			"values with '$' ('$1' '${a}' '$$' ...), placeholder names that are siblings under pattern matching ('a.b' 'a-b' 'axb'); " +
 			"oracle = reference builder written from the statement. non-trivial = case with >= 1 placeholder whose value needs escaping, or >= 1 query-name collision between caller/pattern/base; " +
 			"distinct by (base, pattern, values, caller query)",
@@ -41,9 +43,9 @@ func init() {
 			"only the pattern's trailing slash is owed; pattern \"/\" or \"\" is the root, not a trailing slash; the base path's own trailing slash is not owed",
 			"scheme: the transport-level list, when non-empty, is the offered list, otherwise the operation-level list; with no list at all the default scheme is not judged; a single offered scheme must be chosen as is",
 			"a caller query parameter set with zero values is not generated; the order of different query names in the encoded query is not judged (per-name value order is)",
-			"static query strings are well-formed name=value pairs (names and values percent-encoded by the generator)",
+			"static query strings are well-formed name=value pairs (names and values percent-encoded by the generator; '/' ':' '@' ',', which RFC 3986 allows as they are in a query, are sometimes left unencoded and then stand for themselves)",
 			"a parameter set by the authentication writer is a caller-level parameter like one set by the params writer",
-			"the URL of an operation is a function of the Runtime's configuration and of the operation: what was built before on the same Runtime does not enter the expectation",
+			"the URL of an operation is a function of the Runtime's configuration (what the exported fields Host and BasePath hold when the operation is built) and of the operation: what was built before on the same Runtime, and under which earlier configuration, does not enter the expectation",
 		},
 		MinNontrivial: 500,
 		Run:           run,
@@ -92,6 +94,13 @@ type Case struct {
 	// Runtime.DefaultAuthentication instead of ClientOperation.AuthInfo.
 	AuthCalls   []int `json:"auth_calls,omitempty"`
 	AuthDefault bool  `json:"auth_default,omitempty"`
+	// Reassign: the Before operations are built while the exported fields Runtime.BasePath and
+	// Runtime.Host hold BeforeBasePath and BeforeHost; the case's own base path and host are assigned
+	// to the fields afterwards, before the case's builds. The URL of the case is a function of what
+	// the fields hold when it is built.
+	Reassign       bool   `json:"reassign_fields,omitempty"`
+	BeforeBasePath mon.Q  `json:"before_base_path,omitempty"`
+	BeforeHost     string `json:"before_host,omitempty"`
 }
 
 // Op is an operation built on a shared Runtime before the case proper.
@@ -461,6 +470,14 @@ func open(c *Case) *client.Runtime {
 	default:
 		rt = client.New(c.Host, string(c.BasePath), ts)
 	}
+	if c.Reassign {
+		rt.BasePath = string(c.BeforeBasePath)
+		rt.Host = c.BeforeHost
+		defer func() {
+			rt.BasePath = string(c.BasePath)
+			rt.Host = c.Host
+		}()
+	}
 	for i := range c.Before {
 		o := &c.Before[i]
 		writer := runtime.ClientRequestWriterFunc(func(req runtime.ClientRequest, _ strfmt.Registry) error {
@@ -629,6 +646,9 @@ func runCase(m *mon.M, c *Case) {
 	}
 	if c.Entry != "" {
 		m.Class("entry/" + c.Entry)
+	}
+	if c.Reassign {
+		m.Class(fmt.Sprintf("fields-reassigned-after-%d-other-operations/shared=%v", len(c.Before), c.Shared))
 	}
 	if len(c.AuthCalls) > 0 {
 		m.Class(fmt.Sprintf("auth-writer-sets-params/default=%v", c.AuthDefault))
@@ -902,11 +922,11 @@ func judge(m *mon.M, c *Case, ref *refURL, values map[string]string, b built, or
 // operations or other builds): when the same calls on a Runtime of its own, with nothing built
 // before, give another result, the failure is one of history, not of the inputs.
 func reusedSuffix(c *Case, ord []int, b built) string {
-	if !c.Shared && len(c.Before) == 0 {
+	if !c.Shared && len(c.Before) == 0 && !c.Reassign {
 		return ""
 	}
 	fresh := *c
-	fresh.Shared, fresh.Before = false, nil
+	fresh.Shared, fresh.Before, fresh.Reassign = false, nil, false
 	if buildOnce(&fresh, ord).key() != b.key() {
 		return "/only-on-reused-runtime"
 	}
@@ -914,10 +934,14 @@ func reusedSuffix(c *Case, ord []int, b built) string {
 }
 
 func beforeNote(c *Case) string {
-	if !c.Shared && len(c.Before) == 0 {
+	if !c.Shared && len(c.Before) == 0 && !c.Reassign {
 		return ""
 	}
-	return fmt.Sprintf(" ; built on a Runtime (entry %q, shared=%v) after %d other operation(s)", c.Entry, c.Shared, len(c.Before))
+	re := ""
+	if c.Reassign {
+		re = fmt.Sprintf(" built while Runtime.BasePath was %q and Runtime.Host %q", string(c.BeforeBasePath), c.BeforeHost)
+	}
+	return fmt.Sprintf(" ; built on a Runtime (entry %q, shared=%v) after %d other operation(s)%s", c.Entry, c.Shared, len(c.Before), re)
 }
 
 func sameDecoded(got, want []string) bool {
@@ -1031,7 +1055,69 @@ func encQ(r *rand.Rand, s string) string {
 	return sb.String()
 }
 
+// rawInQuery are bytes outside the unreserved set that RFC 3986 allows as they are in a query
+// component and that neither separate pairs nor names from values.
+const rawInQuery = "/:@,"
+
+// encQRaw is encQ, except that the bytes of rawInQuery stay as they are: the way a person writes
+// callback=https://host/cb or dir=/srv/data/ into a base path or a pattern.
+func encQRaw(r *rand.Rand, s string) string {
+	var sb strings.Builder
+	for i := 0; i < len(s); i++ {
+		if strings.IndexByte(rawInQuery, s[i]) >= 0 {
+			sb.WriteByte(s[i])
+		} else {
+			sb.WriteString(encQ(r, s[i:i+1]))
+		}
+	}
+	return sb.String()
+}
+
+// pathLikeVals are query values (and names) that look like paths or URLs: text that a path
+// normalisation applied to the wrong string would rewrite.
+var pathLikeVals = []string{
+	"https://hooks.example.com/cb", "http://x//y/", "/srv/data/", "/srv/data", "refs/heads/../tags/v2", "src/./gen", "./x", "../", "..", ".",
+	"//", "a//b", "/", "x/", "/.", "/..", "a/./b/", "a/b/../../..", "/a/b/c/d", "urn:x:y", "user@host:/path/", "a,b,/c/",
+}
+
+// longValue makes a value of exactly n bytes with reserved bytes at both ends and at the 64-byte
+// boundaries: lengths around the sizes of fixed buffers and short-string fast paths.
+func longValue(r *rand.Rand, n int) string {
+	const filler = "abcdefghijklmnopqrstuvwxyz0123456789-_.~"
+	edge := []byte{'/', '?', '#', '%', ' ', '{', '}', '$', 0xff, '+', '&', '='}
+	b := make([]byte, n)
+	for i := range b {
+		b[i] = filler[(i+n)%len(filler)]
+	}
+	put := func(i int) {
+		if i >= 0 && i < n {
+			b[i] = edge[r.Intn(len(edge))]
+		}
+	}
+	put(0)
+	put(n - 1)
+	for k := 63; k < n; k += 64 {
+		if r.Intn(2) == 0 {
+			put(k)
+		}
+		if r.Intn(2) == 0 {
+			put(k + 1)
+		}
+	}
+	if r.Intn(3) == 0 { // nothing to escape at all: only the length matters
+		for i := range b {
+			b[i] = filler[(i+n)%len(filler)]
+		}
+	}
+	return string(b)
+}
+
+var longLens = []int{63, 64, 65, 127, 128, 129, 255, 256, 257, 1023, 1025, 4096}
+
 func genValue(r *rand.Rand, names []string) string {
+	if r.Intn(100) == 0 {
+		return longValue(r, longLens[r.Intn(len(longLens))])
+	}
 	switch k := r.Intn(10); {
 	case k < 5:
 		return hostileVals[r.Intn(len(hostileVals))]
@@ -1052,14 +1138,25 @@ func genValue(r *rand.Rand, names []string) string {
 func genStaticQuery(r *rand.Rand) string {
 	n := 1 + r.Intn(3)
 	var pairs []string
+	// a third of the static queries are written the way people write them: '/' ':' '@' ',' as they are
+	enc := encQ
+	if r.Intn(3) == 0 {
+		enc = encQRaw
+	}
 	for i := 0; i < n; i++ {
 		name := queryNames[r.Intn(len(queryNames))]
 		val := genValue(r, nil)
+		if r.Intn(4) == 0 {
+			val = pathLikeVals[r.Intn(len(pathLikeVals))]
+			if r.Intn(12) == 0 {
+				name = pathLikeVals[r.Intn(len(pathLikeVals))]
+			}
+		}
 		if r.Intn(8) == 0 {
-			pairs = append(pairs, encQ(r, name)) // bare name, empty value
+			pairs = append(pairs, enc(r, name)) // bare name, empty value
 			continue
 		}
-		pairs = append(pairs, encQ(r, name)+"="+encQ(r, val))
+		pairs = append(pairs, enc(r, name)+"="+enc(r, val))
 	}
 	return strings.Join(pairs, "&")
 }
@@ -1076,6 +1173,14 @@ func genSegments(r *rand.Rand, n int, names *[]string) []string {
 		return "{" + nm + "}"
 	}
 	for i := 0; i < n; i++ {
+		if r.Intn(150) == 0 { // a long static word, alone or in front of a placeholder
+			w := strings.Repeat("static-Word_0.9~", 300)[:longLens[r.Intn(len(longLens))]]
+			if r.Intn(2) == 0 {
+				w += pick()
+			}
+			segs = append(segs, w)
+			continue
+		}
 		switch k := r.Intn(20); {
 		case k < 8:
 			segs = append(segs, gen.Pick(r, staticWords))
@@ -1235,6 +1340,34 @@ func genCase(r *rand.Rand, norders int) *Case {
 		}
 		for i, n := 0, r.Intn(4); i < n; i++ {
 			c.Before = append(c.Before, genOp(r))
+		}
+	}
+	if (c.Shared && r.Intn(3) == 0) || (!c.Shared && r.Intn(20) == 0) {
+		// the other operations are built under another base path and host, assigned to the exported fields
+		c.Reassign = true
+		c.BeforeHost = hosts[r.Intn(len(hosts))]
+		if r.Intn(4) == 0 {
+			c.BeforeHost = "other.example:81"
+		}
+		var bn []string
+		bb := strings.Join(genSegmentsBase(r, &bn), "/")
+		switch r.Intn(4) {
+		case 0:
+		case 1:
+			bb = "/" + bb + "/"
+		default:
+			bb = "/" + bb
+		}
+		if r.Intn(3) == 0 {
+			bb += "?" + genStaticQuery(r)
+		}
+		c.BeforeBasePath = mon.Q(bb)
+		for len(c.Before) < 1+r.Intn(2) {
+			o := genOp(r)
+			for _, n := range bn { // values for the placeholders of that base path
+				o.Params = append(o.Params, KV{Name: n, Value: mon.Q(genValue(r, bn))})
+			}
+			c.Before = append(c.Before, o)
 		}
 	}
 	if ncalls > 0 && r.Intn(4) == 0 {
